@@ -100,10 +100,11 @@ def gen_idx(rng, model, n_hint, pool):
         return {'f': float(rng.randint(1, 5))}
     if r < 0.74 and pool:
         return rng.choice(pool)                      # collision with an idx already requested
-    if r < 0.90:
-        other = rng.choice(['PV', 'Slack', 'Bus', 'BusFreq', 'BusROCOF', 'Area', model, model])
-        k = rng.choice([n_hint, n_hint + 1, n_hint + 2, n_hint + 1, 1, 2])
-        return '%s_%s' % (other, rng.choice(['%d', '%d', '%d', '0%d']) % k)     # squats an auto name
+    if r < 0.92:
+        # squat a name that get_next_idx will want to generate soon (forces the collision loop)
+        other = model if rng.random() < 0.7 else rng.choice(['PV', 'Slack', 'Bus', 'BusFreq', 'BusROCOF', 'Area'])
+        k = rng.choice([n_hint + 2, n_hint + 2, n_hint + 2, n_hint + 3, n_hint + 3, n_hint + 1, n_hint + 4, 1, 2])
+        return '%s_%s' % (other, rng.choice(['%d', '%d', '%d', '%d', '0%d']) % k)
     return rng.choice(['g1', 'g2', 'a', 'B', '1', '2', 'Büs', 'x y', '-', 'n1', ''])
 
 
@@ -161,14 +162,14 @@ def gen_scenario(rng):
         sc['gens'].append({'m': m, 'idx': i, 'bus': pick_ref(rng, bpool[:3], dp * 0.5),
                            'Vn': rng.choice([110, 110, 220]),
                            'name': rng.choice([None, None, None, 'G', 'g1', 'PV_2'])})
-    gpool = explicit(g['idx'] for g in sc['gens']) + ['PV_1', 'Slack_2', 'PV_2']
+    gpool = explicit(g['idx'] for g in sc['gens']) + (['PV_1', 'Slack_2', 'PV_2'] if rng.random() < 0.25 else [])
     for k in range(rng.choice([0, 0, 1, 2, 3])):
         sc['pqs'].append({'idx': 'pq%d' % k, 'bus': pick_ref(rng, bpool, dp * 0.3)})
-    for k in range(rng.choice([0, 0, 1, 2, 3, 4, 5])):
+    for k in range(rng.choice([0, 0, 1, 2, 3, 4, 5]) if gpool else 0):
         m = rng.choice(['GENCLS', 'GENROU'])
         sc['syns'].append({'m': m, 'idx': rng.choice([None, None, 'syn%d' % k, k]),
                            'bus': pick_ref(rng, bpool, dp * 0.3),
-                           'gen': pick_ref(rng, gpool[:4] if sc['gens'] else gpool, dp)})
+                           'gen': pick_ref(rng, gpool, dp)})
     pool = []
     for k in range(rng.choice([0, 0, 1, 2, 3])):
         m = rng.choice(['BusFreq', 'BusROCOF'])
@@ -714,7 +715,10 @@ def oracle(sc, obs):
         for u, l, v in zip(sc['users'], links, obs['finder_v']):
             want = canon_in(u['busf'])
             hit = [d for d in alldev if d[1] == v and d[0] in scope_models]
-            given_valid = want != '-' and any(d[1] == want and d[0] in scope_models for d in alldev)
+            # valid = names a device of the scope that existed when the entry was processed: an explicit one, or
+            # one created earlier in this run (then the answer keeps it)
+            given_valid = want != '-' and (any(d[1] == want and d[0] in scope_models for d in alldev[:len(fm0)]) or
+                                           (v == want and any(d[1] == want and d[0] in scope_models for d in alldev)))
             if given_valid:
                 if v != want:
                     bad.append(('finder-overrides-valid-idx', 'valid busf %s replaced by %s' % (want, v)))
@@ -1002,7 +1006,7 @@ def run(ctx):
     andes.config_logger(stream_level=50)
     scs = corpus_scenarios()
     ctx.count('corpus', len(scs))
-    scs += [gen_scenario(ctx.rng) for _ in range(ctx.n(150, 1500))]
+    scs += [gen_scenario(ctx.rng) for _ in range(ctx.n(100, 1500))]
     res = check_scenarios(ctx, scs)
     check_unique(ctx, res)
     files = {'GroupBase.add': 'andes/models/group.py', 'GroupBase.get_next_idx': 'andes/models/group.py',
